@@ -1,4 +1,1262 @@
 import Bardolph.Model.Snapshot
+import Bardolph.Props.C15
 /-! # C18 — replaying a captured snapshot script restores the captured light state (theorems below) -/
 namespace Bardolph
+namespace C18
+open Vm Sem SemSteps Snapshot
+
+/-! ## the devices
+
+What a device keeps: a plain light its colour and power, a multizone light one colour per
+zone, a matrix light one colour per cell.  `applyEvent` is what the simulated devices (and
+the real ones) do on receiving the message. -/
+
+inductive Dev where
+  | plain (color : List Int) (power : Int)
+  | multizone (zones : List (List Int))
+  | matrix (cells : List (List Int))
+  deriving Repr, DecidableEq, Inhabited
+
+/-- the devices on the network, by light name -/
+abbrev DeviceState := String → Option Dev
+
+def upd (D : DeviceState) (n : String) (f : Dev → Dev) : DeviceState :=
+  fun m => if m = n then (D m).map f else D m
+
+def Dev.setColor (c : List Int) : Dev → Dev
+  | .plain _ p => .plain c p
+  | .multizone z => .multizone (z.map fun _ => c)
+  | .matrix cells => .matrix (cells.map fun _ => c)
+
+def Dev.setPower (p : Int) : Dev → Dev
+  | .plain c _ => .plain c p
+  | d => d
+
+def Dev.setZones (a b : Nat) (c : List Int) : Dev → Dev
+  | .multizone z => .multizone (C15.applyZones z a b c)
+  | d => d
+
+def Dev.setTile (cells : List (List Int)) : Dev → Dev
+  | .matrix _ => .matrix cells
+  | d => d
+
+def applyEvent (e : Event) (D : DeviceState) : DeviceState :=
+  match e with
+  | .setColor n c _ => upd D n (Dev.setColor c)
+  | .setPower n p _ => upd D n (Dev.setPower p)
+  | .setZones n a b c _ => upd D n (Dev.setZones a.toNat b.toNat c)
+  | .setTile n cells _ _ _ => upd D n (Dev.setTile cells)
+  | .allColor c _ => fun m => (D m).map (Dev.setColor c)
+  | .allPower p _ => fun m => (D m).map (Dev.setPower (if p != 0 then 65535 else 0))
+  | _ => D
+
+/-- a VM trace (newest event first) applied in the order the events happened -/
+def applyTrace (trace : List Event) (D : DeviceState) : DeviceState := trace.foldr applyEvent D
+
+/-- the light a message is addressed to -/
+def target : Event → Option String
+  | .setColor n _ _ | .setPower n _ _ | .setZones n _ _ _ _ | .setTile n _ _ _ _ => some n
+  | _ => none
+
+theorem applyTrace_append (a b : List Event) (D : DeviceState) :
+    applyTrace (a ++ b) D = applyTrace a (applyTrace b D) := by
+  simp [applyTrace, List.foldr_append]
+
+/-- **frame.**  Messages addressed to light `n` leave every other device as it is. -/
+theorem applyTrace_frame (n m : String) (hne : m ≠ n) :
+    ∀ (evs : List Event), (∀ e ∈ evs, target e = some n) → ∀ D, applyTrace evs D m = D m := by
+  intro evs
+  induction evs with
+  | nil => intro _ D; rfl
+  | cons e evs ih =>
+    intro h D
+    have he := h e (by simp)
+    have ih' := ih (fun x hx => h x (by simp [hx])) D
+    simp only [applyTrace, List.foldr_cons] at ih' ⊢
+    cases e <;> simp only [target, Option.some.injEq, reduceCtorEq] at he <;> subst he <;>
+      simp [applyEvent, upd, hne, ih']
+
+/-! ## the VM side: what `on`/`off`/`set` send in raw units with no duration -/
+
+/-- raw units, no duration, no pending time, still running -/
+structure Ready (vm : Vm.State) : Prop where
+  mode : vm.regs .unitMode = .mode .raw
+  dur : numOf (vm.regs .duration) = some 0
+  time : numOf (vm.regs .time) = some 0
+  run : vm.status = .running
+
+theorem Ready.setReg {vm : Vm.State} (h : Ready vm) (r : Reg) (v : Val) (h1 : r ≠ .unitMode)
+    (h2 : r ≠ .duration) (h3 : r ≠ .time) : Ready (vm.setReg r v) := by
+  obtain ⟨a, b, c, d⟩ := h
+  constructor <;> simp [State.setReg, Ne.symm h1, Ne.symm h2, Ne.symm h3, *]
+
+theorem Ready.mode_raw {vm : Vm.State} (h : Ready vm) : vm.mode = .raw := by
+  simp [State.mode, h.mode]
+
+theorem Ready.dur_wire {vm : Vm.State} (h : Ready vm) :
+    (vm.asRawTime (vm.regs .duration)).bind wire32 = some 0 := by
+  simp [State.asRawTime, h.mode_raw, wire32, h.dur, param32_zero]
+
+/-- the colour registers hold the raw colour `c` -/
+def HoldsColor (vm : Vm.State) (c : List Int) : Prop :=
+  ∃ h s b k, c = [h, s, b, k] ∧ vm.regs .hue = .int h ∧ vm.regs .saturation = .int s ∧
+    vm.regs .brightness = .int b ∧ vm.regs .kelvin = .int k
+
+def InRange (c : List Int) : Prop := c.length = 4 ∧ ∀ x ∈ c, 0 ≤ x ∧ x ≤ 65535
+
+theorem getColor_of_holds {vm : Vm.State} {c : List Int} (h : Ready vm) (hc : HoldsColor vm c) :
+    vm.getColor = c.map Val.int := by
+  obtain ⟨a, b, d, e, rfl, h1, h2, h3, h4⟩ := hc
+  simp [State.getColor, h.mode_raw, h1, h2, h3, h4]
+
+theorem color_wire {vm : Vm.State} {c : List Int} (h : Ready vm) (hc : HoldsColor vm c)
+    (hr : InRange c) : (vm.asRawColor vm.getColor).bind wireColor = some c := by
+  rw [getColor_of_holds h hc]
+  simp [State.asRawColor, h.mode_raw, convert, wireColor_ints c hr.2]
+
+/-- two VM states see the same lights (names and kinds; colours and power may differ) -/
+def SameDir (a b : Vm.State) : Prop :=
+  b.lights.map (fun l => (l.name, l.kind)) = a.lights.map (fun l => (l.name, l.kind))
+
+theorem SameDir.rfl' {a : Vm.State} : SameDir a a := rfl
+theorem SameDir.trans {a b c : Vm.State} (h1 : SameDir a b) (h2 : SameDir b c) : SameDir a c :=
+  Eq.trans h2 h1
+
+theorem sameDir_of_lights {a b : Vm.State} (h : b.lights = a.lights) : SameDir a b := by
+  simp [SameDir, h]
+
+theorem sameDir_updLight (a : Vm.State) (n : String) (f : Light → Light)
+    (hf : ∀ l, (f l).name = l.name ∧ (f l).kind = l.kind) : SameDir a (a.updLight n f) := by
+  simp only [SameDir, State.updLight, List.map_map]
+  apply List.map_congr_left
+  intro l _
+  by_cases h : l.name = n <;> simp [h, hf l]
+
+/-- the light called `n` and its kind -/
+def HasKind (vm : Vm.State) (n : String) (k : LightKind) : Prop :=
+  ∃ l, vm.light? (.str n) = some l ∧ l.kind = k
+
+theorem light?_name {vm : Vm.State} {n : String} {l : Light} (h : vm.light? (.str n) = some l) :
+    l.name = n := by
+  have := List.find?_some h
+  simpa using this
+
+theorem HasKind.of_sameDir {a b : Vm.State} (h : SameDir a b) {n : String} {k : LightKind}
+    (hk : HasKind a n k) : HasKind b n k := by
+  obtain ⟨l, hl, hkind⟩ := hk
+  have key : ∀ (ls : List Light),
+      (ls.find? (·.name == n)).map (fun l => (l.name, l.kind)) =
+        (ls.map fun l => (l.name, l.kind)).find? (·.1 == n) := by
+    intro ls
+    rw [List.find?_map]
+    rfl
+  have h1 := key a.lights
+  have h2 := key b.lights
+  rw [h] at h2
+  simp only [State.light?] at hl
+  rw [hl] at h1
+  rw [← h1] at h2
+  simp only [Option.map_some, Option.map_eq_some_iff] at h2
+  obtain ⟨l', hl', heq⟩ := h2
+  simp only [Prod.mk.injEq] at heq
+  exact ⟨l', by simpa [State.light?] using hl', by rw [heq.2, hkind]⟩
+
+theorem doPower_light (vm : Vm.State) (n : String) (k : LightKind)
+    (hop : vm.regs .operand = .operand .light) (hname : vm.regs .name = .str n)
+    (hk : HasKind vm n k) (hr : Ready vm) :
+    vm.doPower = (vm.emit (.setPower n vm.powerLevel 0)).updLight n
+      fun l => { l with power := vm.powerLevel } := by
+  obtain ⟨l, hl, _⟩ := hk
+  have hn := light?_name hl
+  have hat : vm.asRawTime (vm.regs .duration) = some (vm.regs .duration) := by
+    simp [State.asRawTime, hr.mode_raw]
+  have hw : wire32 (vm.regs .duration) = some 0 := by simp [wire32, hr.dur, param32_zero]
+  simp [State.doPower, hop, hname, hl, State.powerMultiple, hat, hn, hr.run, State.sendPower, hw]
+
+theorem doColor_light (vm : Vm.State) (n : String) (k : LightKind) (c : List Int)
+    (hop : vm.regs .operand = .operand .light) (hname : vm.regs .name = .str n)
+    (hk : HasKind vm n k) (hr : Ready vm) (hc : HoldsColor vm c) (hin : InRange c) :
+    vm.doColor = (vm.emit (.setColor n c 0)).updLight n fun l => { l with color := c } := by
+  obtain ⟨l, hl, _⟩ := hk
+  have hn := light?_name hl
+  simp only [State.doColor, hop, hname, hl, hn]
+  exact C15.colorMultiple_single vm n c 0 hr.run (color_wire hr hc hin) hr.dur_wire
+
+/-! ## the script, statement by statement -/
+
+/-- from `s` to `s'`: still in raw units with nothing pending, the same lights, and exactly
+the events `evs` (newest first) sent -/
+structure Adds (s s' : S) (evs : List Event) : Prop where
+  ready : Ready s'.vm
+  dir : SameDir s.vm s'.vm
+  trace : s'.vm.trace = evs ++ s.vm.trace
+
+theorem Adds.trans {s s' s'' : S} {e1 e2 : List Event} (h1 : Adds s s' e1) (h2 : Adds s' s'' e2) :
+    Adds s s'' (e2 ++ e1) :=
+  ⟨h2.ready, h1.dir.trans h2.dir, by rw [h2.trace, h1.trace, List.append_assoc]⟩
+
+/-- the four `hue … saturation … brightness … kelvin …` settings -/
+def loadColor (s : S) (c : List Int) : S :=
+  ([Reg.hue, .saturation, .brightness, .kelvin].zip c).foldl
+    (fun st (rv : Reg × Int) => st.setReg rv.1 (.int rv.2)) s
+
+theorem settings_run (c : List Int) (s : S) : RunsTo 2 (settingsAst c) s (loadColor s c) := by
+  unfold settingsAst loadColor
+  generalize [Reg.hue, Reg.saturation, Reg.brightness, Reg.kelvin].zip c = pairs
+  induction pairs generalizing s with
+  | nil => exact RunsTo.nil 2 s
+  | cons rv rest ih =>
+    obtain ⟨r, v⟩ := rv
+    simp only [List.map_cons, List.foldl_cons]
+    have h1 : RunsTo 2 [Stmt.setReg r (Snapshot.lit v)] s (s.setReg r (.int v)) := by
+      apply RunsTo.single
+      intro f hf
+      obtain ⟨g, rfl⟩ : ∃ g, f = g + 2 := ⟨f - 2, by omega⟩
+      exact exec_setReg_lit g r (.int v) s
+    exact RunsTo.append h1 (ih (s.setReg r (.int v)))
+
+theorem length4 {c : List Int} (h : c.length = 4) : ∃ a b d e, c = [a, b, d, e] := by
+  match c, h with
+  | [a, b, d, e], _ => exact ⟨a, b, d, e, rfl⟩
+
+theorem loadColor_vm (s : S) (a b d e : Int) :
+    (loadColor s [a, b, d, e]).vm =
+      (((s.vm.setReg .hue (.int a)).setReg .saturation (.int b)).setReg .brightness (.int d)).setReg
+        .kelvin (.int e) := rfl
+
+theorem loadColor_ready {s : S} {c : List Int} (hc : c.length = 4) (h : Ready s.vm) :
+    Ready (loadColor s c).vm := by
+  obtain ⟨a, b, d, e, rfl⟩ := length4 hc
+  rw [loadColor_vm]
+  exact (((h.setReg _ _ (by decide) (by decide) (by decide)).setReg _ _ (by decide) (by decide)
+    (by decide)).setReg _ _ (by decide) (by decide) (by decide)).setReg _ _ (by decide)
+    (by decide) (by decide)
+
+theorem loadColor_holds {s : S} {c : List Int} (hc : c.length = 4) :
+    HoldsColor (loadColor s c).vm c := by
+  obtain ⟨a, b, d, e, rfl⟩ := length4 hc
+  rw [loadColor_vm]
+  exact ⟨a, b, d, e, rfl, by simp [State.setReg], by simp [State.setReg], by simp [State.setReg],
+    by simp [State.setReg]⟩
+
+theorem loadColor_adds {s : S} {c : List Int} (hc : c.length = 4) (h : Ready s.vm) :
+    Adds s (loadColor s c) [] := by
+  refine ⟨loadColor_ready hc h, ?_, ?_⟩
+  · obtain ⟨a, b, d, e, rfl⟩ := length4 hc
+    exact sameDir_of_lights rfl
+  · obtain ⟨a, b, d, e, rfl⟩ := length4 hc
+    rfl
+
+theorem loadColor_matrix {s : S} {c : List Int} (hc : c.length = 4) :
+    (loadColor s c).vm.matrix = s.vm.matrix := by
+  obtain ⟨a, b, d, e, rfl⟩ := length4 hc
+  rfl
+
+theorem ready_sent {vm : Vm.State} (h : Ready vm) (e : Event) (n : String) (f : Light → Light) :
+    Ready ((vm.emit e).updLight n f) := ⟨h.mode, h.dur, h.time, h.run⟩
+
+theorem HoldsColor.setReg {vm : Vm.State} {c : List Int} (h : HoldsColor vm c) (r : Reg) (v : Val)
+    (h1 : r ≠ .hue) (h2 : r ≠ .saturation) (h3 : r ≠ .brightness) (h4 : r ≠ .kelvin) :
+    HoldsColor (vm.setReg r v) c := by
+  obtain ⟨a, b, d, e, rfl, g1, g2, g3, g4⟩ := h
+  exact ⟨a, b, d, e, rfl, by simp [State.setReg, Ne.symm h1, g1], by simp [State.setReg, Ne.symm h2, g2],
+    by simp [State.setReg, Ne.symm h3, g3], by simp [State.setReg, Ne.symm h4, g4]⟩
+
+/-- `set "n"` -/
+theorem stmt_set_light (n : String) (k : LightKind) (c : List Int) (s : S) (hr : Ready s.vm)
+    (hk : HasKind s.vm n k) (hc : HoldsColor s.vm c) (hin : InRange c) :
+    ∃ s', (∀ f, 3 ≤ f → execStmt f (.action .set (.cons (.light (.str n)) .nil)) s = (.normal, s')) ∧
+      Adds s s' [.setColor n c 0] ∧ HoldsColor s'.vm c := by
+  let s2 : S := (s.setReg .name (.str n)).setReg .operand (.operand .light)
+  have hr2 : Ready s2.vm :=
+    (hr.setReg _ _ (by decide) (by decide) (by decide)).setReg _ _ (by decide) (by decide) (by decide)
+  have hk2 : HasKind s2.vm n k := hk.of_sameDir (sameDir_of_lights rfl)
+  have hc2 : HoldsColor s2.vm c :=
+    (hc.setReg _ _ (by decide) (by decide) (by decide) (by decide)).setReg _ _ (by decide)
+      (by decide) (by decide) (by decide)
+  have hdo := doColor_light s2.vm n k c (by simp [s2, S.setReg, State.setReg])
+    (by simp [s2, S.setReg, State.setReg]) hk2 hr2 hc2 hin
+  refine ⟨{ s2 with vm := (s2.vm.emit (.setColor n c 0)).updLight n fun l => { l with color := c } },
+    ?_, ⟨ready_sent hr2 _ _ _, ?_, rfl⟩, hc2⟩
+  · intro f hf
+    obtain ⟨g, rfl⟩ : ∃ g, f = g + 3 := ⟨f - 3, by omega⟩
+    rw [exec_action_single g .set _ s hr.time hr.run, exec_light]
+    simp only [beq_self_eq_true, if_true]
+    rw [device_running _ _ (by rw [hdo]; exact hr2.run), hdo]
+  · exact SameDir.trans (sameDir_of_lights rfl) (sameDir_updLight _ n _ (fun l => ⟨rfl, rfl⟩))
+
+/-- `on "n"` / `off "n"` -/
+theorem stmt_power_light (n : String) (k : LightKind) (on : Bool) (c : List Int) (s : S)
+    (hr : Ready s.vm) (hk : HasKind s.vm n k) (hc : HoldsColor s.vm c) :
+    ∃ s', (∀ f, 3 ≤ f →
+        execStmt f (.action (if on then .on else .off) (.cons (.light (.str n)) .nil)) s = (.normal, s')) ∧
+      Adds s s' [.setPower n (if on then 65535 else 0) 0] ∧ HoldsColor s'.vm c := by
+  let s2 : S := ((s.setReg .power (.bool on)).setReg .name (.str n)).setReg .operand (.operand .light)
+  have hr2 : Ready s2.vm :=
+    ((hr.setReg _ _ (by decide) (by decide) (by decide)).setReg _ _ (by decide) (by decide)
+      (by decide)).setReg _ _ (by decide) (by decide) (by decide)
+  have hk2 : HasKind s2.vm n k := hk.of_sameDir (sameDir_of_lights rfl)
+  have hc2 : HoldsColor s2.vm c :=
+    ((hc.setReg _ _ (by decide) (by decide) (by decide) (by decide)).setReg _ _ (by decide)
+      (by decide) (by decide) (by decide)).setReg _ _ (by decide) (by decide) (by decide) (by decide)
+  have hdo := doPower_light s2.vm n k (by simp [s2, S.setReg, State.setReg])
+    (by simp [s2, S.setReg, State.setReg]) hk2 hr2
+  have hlevel : s2.vm.powerLevel = if on then 65535 else 0 := by
+    cases on <;> simp [s2, State.powerLevel, S.setReg, State.setReg, Val.truthy]
+  rw [hlevel] at hdo
+  let vm3 : Vm.State := (s2.vm.emit (.setPower n (if on then 65535 else 0) 0)).updLight n
+    (fun l => { l with power := if on then 65535 else 0 })
+  refine ⟨{ s2 with vm := vm3 }, ?_, ⟨ready_sent hr2 _ _ _, ?_, rfl⟩, hc2⟩
+  · intro f hf
+    obtain ⟨g, rfl⟩ : ∃ g, f = g + 3 := ⟨f - 3, by omega⟩
+    rw [exec_action_single g _ _ s hr.time hr.run, exec_light]
+    have e : ∀ x : S, x = s2 → x.device State.doPower = (.normal, { s2 with vm := vm3 }) := by
+      intro x hx
+      rw [hx, device_running _ _ (by rw [hdo]; exact hr2.run), hdo]
+    cases on
+    · exact e _ rfl
+    · exact e _ rfl
+  · exact SameDir.trans (sameDir_of_lights rfl) (sameDir_updLight _ n _ (fun l => ⟨rfl, rfl⟩))
+
+
+/-! ## 1. a plain light -/
+
+theorem plain_runs (n : String) (c : List Int) (p : Int) (k : LightKind) (s : S)
+    (hr : Ready s.vm) (hk : HasKind s.vm n k) (hin : InRange c) (hp : p = 0 ∨ p = 65535) :
+    ∃ s', RunsTo 3 (lightAst (.plain n c p)) s s' ∧
+      Adds s s' [.setColor n c 0, .setPower n p 0] := by
+  have h0 := loadColor_adds hin.1 hr
+  obtain ⟨s2, hx2, ha2, hc2⟩ := stmt_power_light n k (p != 0) c (loadColor s c) h0.ready
+    (hk.of_sameDir h0.dir) (loadColor_holds hin.1)
+  obtain ⟨s3, hx3, ha3, _⟩ := stmt_set_light n k c s2 ha2.ready
+    ((hk.of_sameDir h0.dir).of_sameDir ha2.dir) hc2 hin
+  have hpow : (if (p != 0) = true then (65535 : Int) else 0) = p := by
+    rcases hp with rfl | rfl <;> rfl
+  rw [hpow] at ha2
+  refine ⟨s3, ?_, (h0.trans ha2).trans ha3⟩
+  exact RunsTo.append ((settings_run c s).mono (by omega))
+    (RunsTo.append (RunsTo.single hx2) (RunsTo.single hx3))
+
+/-- **C18_plain_restored.**  The lines the capture writes for a plain light called `n` with raw
+colour `c` (hue, saturation, brightness and kelvin, each anywhere in 0…65535) and power `p`,
+run from ANY state in raw units with no duration and no pending time in which `n` is a known
+light, send exactly `setPower n p 0` and then `setColor n c 0`; a device in any other state
+ends with exactly the captured colour and power. -/
+theorem C18_plain_restored (n : String) (c : List Int) (p : Int) (k : LightKind) (s : S)
+    (hr : Ready s.vm) (hk : HasKind s.vm n k) (hin : InRange c) (hp : p = 0 ∨ p = 65535)
+    (fuel : Nat) (hf : 10 ≤ fuel) (D : DeviceState) (c0 : List Int) (p0 : Int)
+    (hD : D n = some (.plain c0 p0)) :
+    ∃ s', execBlock fuel (Block.ofList (lightAst (.plain n c p))) s = (.normal, s') ∧
+      s'.vm.trace = [.setColor n c 0, .setPower n p 0] ++ s.vm.trace ∧
+      applyTrace [.setColor n c 0, .setPower n p 0] D n = some (.plain c p) := by
+  obtain ⟨s', hrun, hadds⟩ := plain_runs n c p k s hr hk hin hp
+  refine ⟨s', hrun.block fuel (by simpa [lightAst, settingsAst, hin.1] using hf), hadds.trace, ?_⟩
+  simp [applyTrace, applyEvent, upd, hD, Dev.setColor, Dev.setPower]
+
+/-! ## 2a. a multizone light -/
+
+theorem ready_emit {vm : Vm.State} (h : Ready vm) (e : Event) : Ready (vm.emit e) :=
+  ⟨h.mode, h.dur, h.time, h.run⟩
+
+/-- `set "n" zone i` -/
+theorem stmt_set_zone (n : String) (zc : Nat) (i : Nat) (c : List Int) (s : S) (hr : Ready s.vm)
+    (hk : HasKind s.vm n (.multizone zc)) (hc : HoldsColor s.vm c) (hin : InRange c)
+    (hi : i ≤ 65534) :
+    ∃ s', (∀ f, 5 ≤ f →
+        execStmt f (.action .set (.cons (.zone (.str n) ⟨Snapshot.lit i, none⟩) .nil)) s = (.normal, s')) ∧
+      Adds s s' [.setZones n i ((i : Int) + 1) c 0] := by
+  let s2 : S := (((s.setReg .name (.str n)).setReg .firstZone (.int i)).setReg .lastZone .none).setReg
+    .operand (.operand .mzLight)
+  have hr2 : Ready s2.vm :=
+    (((hr.setReg _ _ (by decide) (by decide) (by decide)).setReg _ _ (by decide) (by decide)
+      (by decide)).setReg _ _ (by decide) (by decide) (by decide)).setReg _ _ (by decide)
+      (by decide) (by decide)
+  obtain ⟨l, hl, hkind⟩ := hk.of_sameDir (sameDir_of_lights (a := s.vm) (b := s2.vm) rfl)
+  have hc2 : HoldsColor s2.vm c :=
+    (((hc.setReg _ _ (by decide) (by decide) (by decide) (by decide)).setReg _ _ (by decide)
+      (by decide) (by decide) (by decide)).setReg _ _ (by decide) (by decide) (by decide)
+      (by decide)).setReg _ _ (by decide) (by decide) (by decide) (by decide)
+  have hname : s2.vm.regs .name = .str n := by simp [s2, S.setReg, State.setReg]
+  have hdo := C15.doColor_zones s2.vm l zc i i c 0 (by simp [s2, S.setReg, State.setReg])
+    (by rw [hname]; exact hl) hkind (by simp [s2, S.setReg, State.setReg])
+    (.inr ⟨by simp [s2, S.setReg, State.setReg], rfl⟩) (by omega) (by omega) (by omega)
+    (color_wire hr2 hc2 hin) hr2.dur_wire
+  rw [light?_name hl] at hdo
+  refine ⟨{ s2 with vm := s2.vm.emit (.setZones n i ((i : Int) + 1) c 0) }, ?_,
+    ⟨ready_emit hr2 _, sameDir_of_lights rfl, rfl⟩⟩
+  intro f hf
+  obtain ⟨g, rfl⟩ : ∃ g, f = g + 5 := ⟨f - 5, by omega⟩
+  simp only [Snapshot.lit]
+  rw [show g + 5 = (g + 2) + 3 from rfl, exec_action_single (g + 2) .set _ s hr.time hr.run,
+    show g + 2 + 1 = g + 3 from rfl, exec_zone_single]
+  simp only [beq_self_eq_true, if_true]
+  rw [device_running _ _ (by rw [hdo]; exact hr2.run), hdo]
+
+def zoneStmts (n : String) (zi : List Int × Nat) : List Stmt :=
+  settingsAst zi.1 ++ [Stmt.action .set (.cons (.zone (.str n) ⟨Snapshot.lit zi.2, none⟩) .nil)]
+
+def zoneEvent (n : String) (zi : List Int × Nat) : Event :=
+  .setZones n zi.2 ((zi.2 : Int) + 1) zi.1 0
+
+theorem zones_run (n : String) (zc : Nat) : ∀ (zones : List (List Int)) (k : Nat) (s : S),
+    Ready s.vm → HasKind s.vm n (.multizone zc) → (∀ z ∈ zones, InRange z) →
+    k + zones.length ≤ 65535 →
+    ∃ s', RunsTo 5 ((zones.zipIdx k).map (zoneStmts n)).flatten s s' ∧
+      Adds s s' ((zones.zipIdx k).map (zoneEvent n)).reverse := by
+  intro zones
+  induction zones with
+  | nil =>
+    intro k s hr _ _ _
+    exact ⟨s, RunsTo.nil 5 s, hr, SameDir.rfl', rfl⟩
+  | cons z rest ih =>
+    intro k s hr hk hin hlen
+    have hz := hin z (by simp)
+    simp only [List.length_cons] at hlen
+    have h0 := loadColor_adds hz.1 hr
+    obtain ⟨s2, hx2, ha2⟩ := stmt_set_zone n zc k z (loadColor s z) h0.ready (hk.of_sameDir h0.dir)
+      (loadColor_holds hz.1) hz (by omega)
+    obtain ⟨s3, hx3, ha3⟩ := ih (k + 1) s2 ha2.ready ((hk.of_sameDir h0.dir).of_sameDir ha2.dir)
+      (fun x hx => hin x (by simp [hx])) (by omega)
+    refine ⟨s3, ?_, ?_⟩
+    · simp only [List.zipIdx_cons, List.map_cons, List.flatten_cons]
+      exact RunsTo.append
+        (RunsTo.append ((settings_run z s).mono (by omega)) (RunsTo.single hx2)) hx3
+    · simp only [List.zipIdx_cons, List.map_cons, List.reverse_cons]
+      exact (h0.trans ha2).trans ha3
+
+theorem lightAst_multizone (n : String) (zones : List (List Int)) :
+    lightAst (.multizone n zones) = ((zones.zipIdx 0).map (zoneStmts n)).flatten := rfl
+
+
+theorem applyTrace_snoc (evs : List Event) (e : Event) (D : DeviceState) :
+    applyTrace (evs ++ [e]) D = applyTrace evs (applyEvent e D) := by
+  rw [applyTrace_append]; rfl
+
+/-- the zone commands of one light, applied in order, on a device with any content: zones
+`k … k + zones.length - 1` take the captured colours, the others keep theirs -/
+theorem zones_device (n : String) : ∀ (zones : List (List Int)) (k : Nat) (D : DeviceState)
+    (cur : List (List Int)), D n = some (.multizone cur) → k + zones.length ≤ cur.length →
+    ∃ R, applyTrace ((zones.zipIdx k).map (zoneEvent n)).reverse D n = some (.multizone R) ∧
+      R.length = cur.length ∧
+      ∀ i, R[i]? = if k ≤ i ∧ i < k + zones.length then zones[i - k]? else cur[i]? := by
+  intro zones
+  induction zones with
+  | nil =>
+    intro k D cur hD _
+    refine ⟨cur, by simpa [applyTrace] using hD, rfl, ?_⟩
+    intro i
+    have : ¬ (k ≤ i ∧ i < k + ([] : List (List Int)).length) := by simp
+    rw [if_neg this]
+  | cons z rest ih =>
+    intro k D cur hD hlen
+    simp only [List.length_cons] at hlen
+    let cur1 := C15.applyZones cur k (k + 1) z
+    have hD1 : applyEvent (zoneEvent n (z, k)) D n = some (.multizone cur1) := by
+      simp only [zoneEvent, applyEvent, upd, if_true, hD, Option.map_some, Dev.setZones]
+      have e1 : (Int.toNat (k : Int)) = k := by omega
+      have e2 : (Int.toNat ((k : Int) + 1)) = k + 1 := by omega
+      rw [e1, e2]
+    have hl1 : cur1.length = cur.length := C15.applyZones_length _ _ _ _
+    obtain ⟨R, hR, hRl, hRi⟩ := ih (k + 1) _ cur1 hD1 (by omega)
+    refine ⟨R, ?_, by omega, ?_⟩
+    · simp only [List.zipIdx_cons, List.map_cons, List.reverse_cons]
+      rw [applyTrace_snoc]
+      exact hR
+    · intro i
+      rw [hRi i, C15.applyZones_getElem?]
+      by_cases h1 : k + 1 ≤ i ∧ i < k + 1 + rest.length
+      · have h2 : k ≤ i ∧ i < k + (z :: rest).length := by simp; omega
+        rw [if_pos h1, if_pos h2]
+        have : i - k = (i - (k + 1)) + 1 := by omega
+        rw [this, List.getElem?_cons_succ]
+      · rw [if_neg h1]
+        by_cases h3 : i = k
+        · subst h3
+          have h2 : i ≤ i ∧ i < i + (z :: rest).length := by simp
+          have h4 : i ≤ i ∧ i < i + 1 := by omega
+          rw [if_pos h2, if_pos h4, List.getElem?_eq_getElem (by omega : i < cur.length)]
+          simp
+        · have h2 : ¬ (k ≤ i ∧ i < k + (z :: rest).length) := by simp; omega
+          have h4 : ¬ (k ≤ i ∧ i < k + 1) := by omega
+          rw [if_neg h2, if_neg h4]
+
+theorem settingsAst_length_le (c : List Int) : (settingsAst c).length ≤ 4 := by
+  simp only [settingsAst, List.length_map, List.length_zip, List.length_cons, List.length_nil]
+  omega
+
+theorem zoneStmts_length_le (n : String) (zones : List (List Int)) (k : Nat) :
+    ((zones.zipIdx k).map (zoneStmts n)).flatten.length ≤ 5 * zones.length := by
+  induction zones generalizing k with
+  | nil => simp
+  | cons z rest ih =>
+    have := ih (k + 1)
+    have h4 := settingsAst_length_le z
+    simp only [List.zipIdx_cons, List.map_cons, List.flatten_cons, List.length_append, zoneStmts,
+      List.length_cons, List.length_nil]
+    omega
+
+/-- the events the capture script of a multizone light sends, oldest first -/
+def zoneEvents (n : String) (zones : List (List Int)) : List Event :=
+  (zones.zipIdx 0).map (zoneEvent n)
+
+theorem zones_device_all (n : String) (zones : List (List Int)) (D : DeviceState)
+    (cur : List (List Int)) (hD : D n = some (.multizone cur)) (hcur : cur.length = zones.length) :
+    applyTrace (zoneEvents n zones).reverse D n = some (.multizone zones) := by
+  obtain ⟨R, hR, hRl, hRi⟩ := zones_device n zones 0 D cur hD (by omega)
+  rw [zoneEvents, hR]
+  congr 2
+  apply List.ext_getElem?
+  intro i
+  rw [hRi i]
+  by_cases h : i < zones.length
+  · have : 0 ≤ i ∧ i < 0 + zones.length := by omega
+    rw [if_pos this]; rfl
+  · have : ¬ (0 ≤ i ∧ i < 0 + zones.length) := by omega
+    rw [if_neg this, List.getElem?_eq_none (by omega), List.getElem?_eq_none (by omega)]
+
+/-- **C18_zone_restored.**  The lines written for a multizone light `n` (any number of zones up
+to 65535, each colour component anywhere in 0…65535), run from any ready state, send one zone
+command per zone, `setZones n i (i+1) zones[i] 0` for `i = 0, 1, …`; a device with the same
+number of zones in any other state ends with exactly the captured colour in every zone. -/
+theorem C18_zone_restored (n : String) (zones : List (List Int)) (s : S)
+    (hr : Ready s.vm) (hk : HasKind s.vm n (.multizone zones.length))
+    (hin : ∀ z ∈ zones, InRange z) (hlen : zones.length ≤ 65535)
+    (fuel : Nat) (hf : 5 * zones.length + 6 ≤ fuel) (D : DeviceState) (cur : List (List Int))
+    (hD : D n = some (.multizone cur)) (hcur : cur.length = zones.length) :
+    ∃ s', execBlock fuel (Block.ofList (lightAst (.multizone n zones))) s = (.normal, s') ∧
+      s'.vm.trace = (zoneEvents n zones).reverse ++ s.vm.trace ∧
+      applyTrace (zoneEvents n zones).reverse D n = some (.multizone zones) := by
+  obtain ⟨s', hrun, hadds⟩ := zones_run n zones.length zones 0 s hr hk hin (by omega)
+  have hlenAst := zoneStmts_length_le n zones 0
+  refine ⟨s', ?_, hadds.trace, zones_device_all n zones D cur hD hcur⟩
+  rw [lightAst_multizone]
+  exact hrun.block fuel (by omega)
+
+
+/-! ## 2b. a matrix light -/
+
+theorem find?_unique {α : Type} (p : α → Bool) (L : List α) (x : α) (hx : x ∈ L) (hp : p x = true)
+    (hu : ∀ y ∈ L, p y = true → y = x) : L.find? p = some x := by
+  cases h : L.find? p with
+  | none =>
+    have := List.find?_eq_none.mp h x hx
+    simp [hp] at this
+  | some y =>
+    rw [hu y (List.mem_of_find?_eq_some h) (List.find?_some h)]
+
+/-- the stage the capture writes for cell number `k` of a matrix `w` wide: that cell alone -/
+def cellStage (w : Nat) (ck : List Int × Nat) : Stage :=
+  ⟨ck.2 / w, ck.2 / w, ck.2 % w, ck.2 % w, ck.1.map Val.int⟩
+
+/-- every cell is covered by exactly its own stage -/
+theorem snapshot_cell (h w : Nat) (cells : List (List Int)) (hlen : cells.length = h * w)
+    (r c : Nat) (hr : r < h) (hc : c < w) :
+    Matrix.cell ⟨h, w, (cells.zipIdx 0).map (cellStage w)⟩ r c =
+      some ((cells.getD (r * w + c) []).map Val.int) := by
+  have hk : r * w + c < cells.length := by
+    rw [hlen]
+    have : (r + 1) * w ≤ h * w := Nat.mul_le_mul_right w hr
+    rw [Nat.succ_mul] at this
+    omega
+  have hdiv : (r * w + c) / w = r := by
+    rw [Nat.add_comm, Nat.add_mul_div_right _ _ (by omega), Nat.div_eq_of_lt hc, Nat.zero_add]
+  have hmod : (r * w + c) % w = c := by
+    rw [Nat.add_comm, Nat.add_mul_mod_self_right, Nat.mod_eq_of_lt hc]
+  rw [C15.cell_eq]
+  rw [find?_unique _ _ (cellStage w (cells.getD (r * w + c) [], r * w + c))]
+  · rfl
+  · simp only [List.mem_reverse, List.mem_map]
+    refine ⟨(cells.getD (r * w + c) [], r * w + c), ?_, rfl⟩
+    rw [List.mem_zipIdx_iff_getElem?]
+    simp [List.getD, List.getElem?_eq_getElem hk]
+  · simp [C15.covers, cellStage, hdiv, hmod]
+  · intro y hy hp
+    simp only [List.mem_reverse, List.mem_map] at hy
+    obtain ⟨⟨c', k'⟩, hmem, rfl⟩ := hy
+    have hm := List.mem_zipIdx hmem
+    have hp := (C15.C15_rect_inclusive (k' / w) (k' / w) (k' % w) (k' % w) (c'.map .int) r c).mp hp
+    have hk' : k' = r * w + c := by
+      have := Nat.div_add_mod k' w
+      have e1 : k' / w = r := by omega
+      have e2 : k' % w = c := by omega
+      rw [e1, e2, Nat.mul_comm] at this
+      omega
+    subst hk'
+    have hc' : c' = cells.getD (r * w + c) [] := by
+      rw [hm.2.2]
+      simp [List.getD, List.getElem?_eq_getElem hk]
+    rw [hc']
+
+
+theorem loadColor_name {s : S} {c : List Int} (hc : c.length = 4) :
+    (loadColor s c).vm.regs .name = s.vm.regs .name := by
+  obtain ⟨a, b, d, e, rfl⟩ := length4 hc
+  rw [loadColor_vm]
+  simp [State.setReg]
+
+/-- `stage row r column c` -/
+theorem stmt_stage_cell (m : Matrix) (r ci : Nat) (c : List Int) (s : S) (hr : Ready s.vm)
+    (hm : s.vm.matrix = some m) (hc : HoldsColor s.vm c) (hrow : r < m.height)
+    (hcol : ci < m.width) :
+    ∃ s', (∀ f, 4 ≤ f →
+        execStmt f (.stage (some ⟨Snapshot.lit r, none⟩) (some ⟨Snapshot.lit ci, none⟩) false) s =
+          (.normal, s')) ∧
+      Adds s s' [] ∧ s'.vm.regs .name = s.vm.regs .name ∧
+      s'.vm.matrix = some { m with stages := m.stages ++ [⟨r, r, ci, ci, c.map Val.int⟩] } := by
+  let s2 : S := ((((s.setReg .operand (.operand .matrix)).setReg .firstRow (.int r)).setReg
+    .lastRow .none).setReg .firstColumn (.int ci)).setReg .lastColumn .none
+  have hr2 : Ready s2.vm :=
+    ((((hr.setReg _ _ (by decide) (by decide) (by decide)).setReg _ _ (by decide) (by decide)
+      (by decide)).setReg _ _ (by decide) (by decide) (by decide)).setReg _ _ (by decide)
+      (by decide) (by decide)).setReg _ _ (by decide) (by decide) (by decide)
+  have hc2 : HoldsColor s2.vm c :=
+    ((((hc.setReg _ _ (by decide) (by decide) (by decide) (by decide)).setReg _ _ (by decide)
+      (by decide) (by decide) (by decide)).setReg _ _ (by decide) (by decide) (by decide)
+      (by decide)).setReg _ _ (by decide) (by decide) (by decide) (by decide)).setReg _ _
+      (by decide) (by decide) (by decide) (by decide)
+  have hcol2 := getColor_of_holds hr2 hc2
+  have hdo := C15.doColor_stage s2.vm m r r ci ci (by simp [s2, S.setReg, State.setReg]) hm
+    (by
+      have e1 : s2.vm.regs .firstRow = .int r := by simp [s2, S.setReg, State.setReg]
+      have e2 : s2.vm.regs .lastRow = .none := by simp [s2, S.setReg, State.setReg]
+      rw [e1, e2]; exact C15.C15_omitted_end_is_start r _)
+    (by
+      have e1 : s2.vm.regs .firstColumn = .int ci := by simp [s2, S.setReg, State.setReg]
+      have e2 : s2.vm.regs .lastColumn = .none := by simp [s2, S.setReg, State.setReg]
+      rw [e1, e2]; exact C15.C15_omitted_end_is_start ci _)
+    (.inr ⟨hrow, hcol⟩)
+  rw [hcol2] at hdo
+  let vm3 : Vm.State :=
+    { s2.vm with matrix := some { m with stages := m.stages ++ [⟨r, r, ci, ci, c.map Val.int⟩] } }
+  refine ⟨{ s2 with vm := vm3 }, ?_, ⟨⟨hr2.mode, hr2.dur, hr2.time, hr2.run⟩, sameDir_of_lights rfl, rfl⟩,
+    by simp [vm3, s2, S.setReg, State.setReg], rfl⟩
+  intro f hf
+  obtain ⟨g, rfl⟩ : ∃ g, f = g + 4 := ⟨f - 4, by omega⟩
+  simp only [Snapshot.lit]
+  rw [exec_stage_cell, device_running _ _ (by rw [hdo]; exact hr2.run), hdo]
+
+def cellStmts (w : Nat) (ck : List Int × Nat) : List Stmt :=
+  settingsAst ck.1 ++ [Stmt.stage (some ⟨Snapshot.lit (ck.2 / w : Nat), none⟩)
+    (some ⟨Snapshot.lit (ck.2 % w : Nat), none⟩) false]
+
+theorem lightAst_matrix (n : String) (h w : Nat) (cells : List (List Int)) :
+    lightAst (.matrix n h w cells) =
+      [.action .set (.cons (.matrixBlock (.str n)
+        (Block.ofList ((cells.zipIdx 0).map (cellStmts w)).flatten)) .nil)] := rfl
+
+theorem cells_run (h w : Nat) : ∀ (cells : List (List Int)) (k : Nat) (s : S) (stages : List Stage),
+    Ready s.vm → s.vm.matrix = some ⟨h, w, stages⟩ → (∀ c ∈ cells, InRange c) →
+    k + cells.length ≤ h * w →
+    ∃ s', RunsTo 4 ((cells.zipIdx k).map (cellStmts w)).flatten s s' ∧ Adds s s' [] ∧
+      s'.vm.regs .name = s.vm.regs .name ∧
+      s'.vm.matrix = some ⟨h, w, stages ++ (cells.zipIdx k).map (cellStage w)⟩ := by
+  intro cells
+  induction cells with
+  | nil =>
+    intro k s stages hr hm _ _
+    exact ⟨s, RunsTo.nil 4 s, ⟨hr, SameDir.rfl', rfl⟩, rfl, by simpa using hm⟩
+  | cons c rest ih =>
+    intro k s stages hr hm hin hlen
+    have hc := hin c (by simp)
+    simp only [List.length_cons] at hlen
+    have hkw : k < h * w := by omega
+    have hw : 0 < w := by
+      rcases Nat.eq_zero_or_pos w with h0 | h0
+      · subst h0; simp at hkw
+      · exact h0
+    have h0 := loadColor_adds hc.1 hr
+    obtain ⟨s2, hx2, ha2, hn2, hm2⟩ := stmt_stage_cell ⟨h, w, stages⟩ (k / w) (k % w) c (loadColor s c)
+      h0.ready (by rw [loadColor_matrix hc.1]; exact hm) (loadColor_holds hc.1)
+      ((Nat.div_lt_iff_lt_mul hw).mpr hkw) (Nat.mod_lt _ hw)
+    obtain ⟨s3, hx3, ha3, hn3, hm3⟩ := ih (k + 1) s2 _ ha2.ready hm2
+      (fun x hx => hin x (by simp [hx])) (by omega)
+    refine ⟨s3, ?_, (h0.trans ha2).trans ha3, by rw [hn3, hn2, loadColor_name hc.1], ?_⟩
+    · simp only [List.zipIdx_cons, List.map_cons, List.flatten_cons]
+      exact RunsTo.append
+        (RunsTo.append ((settings_run c s).mono (by omega)) (RunsTo.single hx2)) hx3
+    · rw [hm3]
+      simp [List.zipIdx_cons, cellStage]
+
+theorem cellStmts_length_le (w : Nat) (cells : List (List Int)) (k : Nat) :
+    ((cells.zipIdx k).map (cellStmts w)).flatten.length ≤ 5 * cells.length := by
+  induction cells generalizing k with
+  | nil => simp
+  | cons z rest ih =>
+    have := ih (k + 1)
+    have h4 := settingsAst_length_le z
+    simp only [List.zipIdx_cons, List.map_cons, List.flatten_cons, List.length_append, cellStmts,
+      List.length_cons, List.length_nil]
+    omega
+
+
+theorem index_lt {h w r c : Nat} (hr : r < h) (hc : c < w) : r * w + c < h * w := by
+  have : (r + 1) * w ≤ h * w := Nat.mul_le_mul_right w hr
+  rw [Nat.succ_mul] at this
+  omega
+
+theorem tile_cells (h w : Nat) (cells : List (List Int)) (hlen : cells.length = h * w) :
+    C15.tile h w (fun r c => cells.getD (r * w + c) []) = cells := by
+  apply C15.tile_ext h w _ _ (C15.tile_length _ _ _) hlen
+  intro r c hr hc
+  rw [C15.tile_getElem? h w _ r c hr hc]
+  have hk : r * w + c < cells.length := by rw [hlen]; exact index_lt hr hc
+  simp [List.getD, List.getElem?_eq_getElem hk]
+
+theorem matrix_runs (n : String) (h w : Nat) (cells : List (List Int)) (s : S)
+    (hr : Ready s.vm) (hk : HasKind s.vm n (.matrix h w)) (hin : ∀ c ∈ cells, InRange c)
+    (hlen : cells.length = h * w) :
+    ∃ s', RunsTo (5 * cells.length + 8) (lightAst (.matrix n h w cells)) s s' ∧
+      Adds s s' [.setTile n cells 0 w h] := by
+  obtain ⟨l, hl, hkind⟩ := hk
+  let s1 : S := { s with vm := { s.vm.setReg .name (.str n) with matrix := some ⟨h, w, []⟩ } }
+  have hr1 : Ready s1.vm := by
+    have := hr.setReg .name (.str n) (by decide) (by decide) (by decide)
+    exact ⟨this.mode, this.dur, this.time, this.run⟩
+  have hd1 : SameDir s.vm s1.vm := sameDir_of_lights rfl
+  obtain ⟨s2, hx2, ha2, hn2, hm2⟩ := cells_run h w cells 0 s1 [] hr1 rfl hin (by omega)
+  let s3 : S := s2.setReg .operand (.operand .matrixLight)
+  have hr3 : Ready s3.vm := ha2.ready.setReg _ _ (by decide) (by decide) (by decide)
+  have hd3 : SameDir s.vm s3.vm := (hd1.trans ha2.dir).trans (sameDir_of_lights rfl)
+  obtain ⟨l3, hl3, hk3⟩ := HasKind.of_sameDir hd3 ⟨l, hl, hkind⟩
+  have hname3 : s3.vm.regs .name = .str n := by
+    have : s3.vm.regs .name = s2.vm.regs .name := by simp [s3, S.setReg, State.setReg]
+    rw [this, hn2]
+    simp [s1, State.setReg]
+  have hcells : ∀ r c, r < h → c < w →
+      C15.cellWire s3.vm (Matrix.cell ⟨h, w, (cells.zipIdx 0).map (cellStage w)⟩ r c) =
+        some (cells.getD (r * w + c) []) := by
+    intro r c hr' hc'
+    rw [snapshot_cell h w cells hlen r c hr' hc']
+    have hk : r * w + c < cells.length := by rw [hlen]; exact index_lt hr' hc'
+    have hmem : cells.getD (r * w + c) [] ∈ cells := by
+      simp [List.getD, List.getElem?_eq_getElem hk]
+    have hw := wireColor_ints _ (hin _ hmem).2
+    simp only [C15.cellWire, State.asRawColor, hr3.mode_raw, convert, Option.bind_some]
+    exact hw
+  have hdo := C15.doColor_matrixLight s3.vm l3 h w ⟨h, w, (cells.zipIdx 0).map (cellStage w)⟩
+    (fun r c => cells.getD (r * w + c) []) 0 (by simp [s3, S.setReg, State.setReg])
+    (by rw [hname3]; exact hl3) hk3
+    (by
+      have : s3.vm.matrix = s2.vm.matrix := rfl
+      rw [this, hm2]; simp)
+    hcells hr3.dur_wire
+  rw [tile_cells h w cells hlen, light?_name hl3] at hdo
+  refine ⟨{ s3 with vm := s3.vm.emit (.setTile n cells 0 w h) }, ?_,
+    ⟨ready_emit hr3 _, hd3, ?_⟩⟩
+  · rw [lightAst_matrix]
+    apply RunsTo.single
+    intro f hf
+    obtain ⟨g, rfl⟩ : ∃ g, f = g + 3 := ⟨f - 3, by omega⟩
+    rw [exec_action_single g .set _ s hr.time hr.run]
+    simp only []
+    rw [exec_matrixBlock g .set n _ s l h w hl hkind hr.run]
+    have hb := hx2.block g (by
+      have := cellStmts_length_le w cells 0
+      omega)
+    rw [hb]
+    simp only [beq_self_eq_true, if_true]
+    rw [device_running _ _ (by rw [hdo]; exact hr3.run), hdo]
+  · have : s3.vm.trace = s2.vm.trace := rfl
+    simp only [State.emit, this, ha2.trace]
+    rfl
+
+/-- **C18_matrix_restored.**  The block written for a matrix light `n` of any height and width
+(`cells.length = h * w`, each component anywhere in 0…65535), run from any ready state, sends
+exactly one `setTile` whose cells are exactly the captured cells, in order; a device in any
+other state ends with exactly the captured cells. -/
+theorem C18_matrix_restored (n : String) (h w : Nat) (cells : List (List Int)) (s : S)
+    (hr : Ready s.vm) (hk : HasKind s.vm n (.matrix h w)) (hin : ∀ c ∈ cells, InRange c)
+    (hlen : cells.length = h * w) (fuel : Nat) (hf : 5 * cells.length + 10 ≤ fuel)
+    (D : DeviceState) (cur : List (List Int)) (hD : D n = some (.matrix cur)) :
+    ∃ s', execBlock fuel (Block.ofList (lightAst (.matrix n h w cells))) s = (.normal, s') ∧
+      s'.vm.trace = [.setTile n cells 0 w h] ++ s.vm.trace ∧
+      applyTrace [.setTile n cells 0 w h] D n = some (.matrix cells) := by
+  obtain ⟨s', hrun, hadds⟩ := matrix_runs n h w cells s hr hk hin hlen
+  refine ⟨s', hrun.block fuel (by simp [lightAst]; omega), hadds.trace, ?_⟩
+  simp [applyTrace, applyEvent, upd, hD, Dev.setTile]
+
+
+/-! ## 3. the whole population -/
+
+/-- `sortNames` only reorders -/
+theorem sortNames_perm (xs : List String) : (sortNames xs).Perm xs := by
+  have key : ∀ (xs acc : List String),
+      (xs.foldl (fun acc x => (acc.takeWhile (· < x)) ++ [x] ++ (acc.dropWhile (· < x))) acc).Perm
+        (acc ++ xs) := by
+    intro xs
+    induction xs with
+    | nil => intro acc; simp
+    | cons x rest ih =>
+      intro acc
+      simp only [List.foldl_cons]
+      refine (ih _).trans ?_
+      have h1 : (List.takeWhile (· < x) acc ++ [x] ++ List.dropWhile (· < x) acc).Perm (x :: acc) := by
+        have e : List.takeWhile (· < x) acc ++ [x] ++ List.dropWhile (· < x) acc =
+            List.takeWhile (· < x) acc ++ x :: List.dropWhile (· < x) acc := by simp
+        rw [e]
+        have p := List.perm_middle (a := x) (l₁ := List.takeWhile (· < x) acc)
+          (l₂ := List.dropWhile (· < x) acc)
+        rwa [List.takeWhile_append_dropWhile] at p
+      refine (List.Perm.append_right rest h1).trans ?_
+      exact (List.perm_middle (l₁ := acc) (l₂ := rest) (a := x)).symm
+  simpa [sortNames] using key xs []
+
+theorem mem_ordered {ls : List Captured} {c : Captured} (h : c ∈ ordered ls) : c ∈ ls := by
+  simp only [ordered, List.mem_filterMap] at h
+  obtain ⟨n, _, hf⟩ := h
+  exact List.mem_of_find?_eq_some hf
+
+theorem ordered_names (ls : List Captured) :
+    (ordered ls).map (·.name) = sortNames (ls.map (·.name)) := by
+  have key : ∀ names : List String, (∀ n ∈ names, ∃ c ∈ ls, c.name = n) →
+      (names.filterMap fun n => ls.find? (·.name == n)).map (·.name) = names := by
+    intro names
+    induction names with
+    | nil => intro _; rfl
+    | cons n rest ih =>
+      intro h
+      obtain ⟨c, hc, hn⟩ := h n (by simp)
+      have hsome : (ls.find? (·.name == n)).isSome := by
+        rw [List.find?_isSome]
+        exact ⟨c, hc, by simp [hn]⟩
+      obtain ⟨c', hc'⟩ := Option.isSome_iff_exists.mp hsome
+      have hn' : c'.name = n := by simpa using List.find?_some hc'
+      rw [List.filterMap_cons, hc']
+      simp only [List.map_cons, hn']
+      rw [ih (fun m hm => h m (by simp [hm]))]
+  apply key
+  intro n hn
+  have := (sortNames_perm _).mem_iff.mp hn
+  simpa using this
+
+theorem name_inj {ls : List Captured} (hnd : (ls.map (·.name)).Nodup) {a b : Captured}
+    (ha : a ∈ ls) (hb : b ∈ ls) (h : a.name = b.name) : a = b := by
+  induction ls with
+  | nil => cases ha
+  | cons x rest ih =>
+    simp only [List.map_cons, List.nodup_cons, List.mem_map, not_exists, not_and] at hnd
+    simp only [List.mem_cons] at ha hb
+    rcases ha with rfl | ha <;> rcases hb with rfl | hb
+    · rfl
+    · exact absurd h.symm (hnd.1 b hb)
+    · exact absurd h (hnd.1 a ha)
+    · exact ih hnd.2 ha hb
+
+theorem ordered_mem {ls : List Captured} (hnd : (ls.map (·.name)).Nodup) {c : Captured}
+    (hc : c ∈ ls) : c ∈ ordered ls := by
+  simp only [ordered, List.mem_filterMap]
+  refine ⟨c.name, (sortNames_perm _).mem_iff.mpr (by simp; exact ⟨c, hc, rfl⟩), ?_⟩
+  have hsome : (ls.find? (·.name == c.name)).isSome := by
+    rw [List.find?_isSome]
+    exact ⟨c, hc, by simp⟩
+  obtain ⟨c', hc'⟩ := Option.isSome_iff_exists.mp hsome
+  have hn' : c'.name = c.name := by simpa using List.find?_some hc'
+  rw [hc', name_inj hnd (List.mem_of_find?_eq_some hc') hc hn']
+
+theorem ordered_nodup {ls : List Captured} (hnd : (ls.map (·.name)).Nodup) :
+    ((ordered ls).map (·.name)).Nodup := by
+  rw [ordered_names]
+  exact (sortNames_perm _).nodup_iff.mpr hnd
+
+
+theorem init_raw (lights : List Light) :
+    Ready ((Vm.init lights).switchMode .raw) ∧ ((Vm.init lights).switchMode .raw).lights = lights ∧
+      ((Vm.init lights).switchMode .raw).trace = [] := by
+  refine ⟨⟨?_, ?_, ?_, ?_⟩, ?_, ?_⟩
+  · rfl
+  · show numOf (.num (0 * 1000)) = some 0
+    simp [numOf, Val.asNum, Rat.zero_mul]
+  · show numOf (.num (0 * 1000)) = some 0
+    simp [numOf, Val.asNum, Rat.zero_mul]
+  · rfl
+  · rfl
+  · rfl
+
+/-- a possible capture: raw values in range, matrix cells matching the size -/
+def Valid : Captured → Prop
+  | .plain _ c p => InRange c ∧ (p = 0 ∨ p = 65535)
+  | .multizone _ zones => zones.length ≤ 65535 ∧ ∀ z ∈ zones, InRange z
+  | .matrix _ h w cells => cells.length = h * w ∧ ∀ c ∈ cells, InRange c
+
+def kindOf : Captured → LightKind
+  | .plain _ _ _ => .plain
+  | .multizone _ zones => .multizone zones.length
+  | .matrix _ h w _ => .matrix h w
+
+/-- the captured state as a device state -/
+def devOf : Captured → Dev
+  | .plain _ c p => .plain c p
+  | .multizone _ zones => .multizone zones
+  | .matrix _ _ _ cells => .matrix cells
+
+/-- the messages replaying one light's lines sends, oldest first -/
+def events : Captured → List Event
+  | .plain n c p => [.setPower n p 0, .setColor n c 0]
+  | .multizone n zones => zoneEvents n zones
+  | .matrix n h w cells => [.setTile n cells 0 w h]
+
+/-- the device at replay time is the same light: same make, same number of zones -/
+def SameShape (D : DeviceState) : Captured → Prop
+  | .plain n _ _ => ∃ c p, D n = some (.plain c p)
+  | .multizone n zones => ∃ cur, D n = some (.multizone cur) ∧ cur.length = zones.length
+  | .matrix n _ _ _ => ∃ cur, D n = some (.matrix cur)
+
+/-- fuel one statement of a light's lines may need -/
+def stmtBound : Captured → Nat
+  | .plain _ _ _ => 3
+  | .multizone _ _ => 5
+  | .matrix _ _ _ cells => 5 * cells.length + 8
+
+theorem light_runs (c : Captured) (s : S) (hr : Ready s.vm)
+    (hk : HasKind s.vm c.name (kindOf c)) (hv : Valid c) :
+    ∃ s', RunsTo (stmtBound c) (lightAst c) s s' ∧ Adds s s' (events c).reverse := by
+  cases c with
+  | plain n col p => exact plain_runs n col p _ s hr hk hv.1 hv.2
+  | multizone n zones =>
+    obtain ⟨s', h1, h2⟩ := zones_run n zones.length zones 0 s hr hk hv.2 (by have := hv.1; omega)
+    exact ⟨s', h1, h2⟩
+  | matrix n h w cells => exact matrix_runs n h w cells s hr hk hv.2 hv.1
+
+theorem lights_run (K : Nat) : ∀ (ord : List Captured) (s : S), (∀ c ∈ ord, stmtBound c ≤ K) →
+    Ready s.vm → (∀ c ∈ ord, HasKind s.vm c.name (kindOf c)) → (∀ c ∈ ord, Valid c) →
+    ∃ s', RunsTo K (ord.map lightAst).flatten s s' ∧ Adds s s' (ord.flatMap events).reverse := by
+  intro ord
+  induction ord with
+  | nil => intro s _ hr _ _; exact ⟨s, RunsTo.nil K s, hr, SameDir.rfl', rfl⟩
+  | cons c rest ih =>
+    intro s hK hr hk hv
+    obtain ⟨s1, hx1, ha1⟩ := light_runs c s hr (hk c (by simp)) (hv c (by simp))
+    obtain ⟨s2, hx2, ha2⟩ := ih s1 (fun x hx => hK x (by simp [hx])) ha1.ready
+      (fun x hx => (hk x (by simp [hx])).of_sameDir ha1.dir) (fun x hx => hv x (by simp [hx]))
+    refine ⟨s2, ?_, ?_⟩
+    · simp only [List.map_cons, List.flatten_cons]
+      exact RunsTo.append (hx1.mono (hK c (by simp))) hx2
+    · simp only [List.flatMap_cons, List.reverse_append]
+      exact ha1.trans ha2
+
+theorem events_target (c : Captured) : ∀ e ∈ events c, target e = some c.name := by
+  cases c with
+  | plain n col p =>
+    intro e he
+    simp only [events, List.mem_cons, List.not_mem_nil, or_false] at he
+    rcases he with rfl | rfl <;> rfl
+  | multizone n zones =>
+    intro e he
+    simp only [events, zoneEvents, List.mem_map] at he
+    obtain ⟨zi, _, rfl⟩ := he
+    rfl
+  | matrix n h w cells =>
+    intro e he
+    simp only [events, List.mem_cons, List.not_mem_nil, or_false] at he
+    subst he; rfl
+
+/-- **frame**, for a whole trace: messages addressed to other lights leave device `m` alone -/
+theorem applyTrace_frame' (m : String) : ∀ (evs : List Event),
+    (∀ e ∈ evs, ∃ n, target e = some n ∧ n ≠ m) → ∀ D, applyTrace evs D m = D m := by
+  intro evs
+  induction evs with
+  | nil => intro _ D; rfl
+  | cons e evs ih =>
+    intro h D
+    obtain ⟨n, hn, hne⟩ := h e (by simp)
+    have h1 : applyTrace (e :: evs) D = applyTrace [e] (applyTrace evs D) := rfl
+    rw [h1, applyTrace_frame n m (Ne.symm hne) [e] (by simpa using hn)]
+    exact ih (fun x hx => h x (by simp [hx])) D
+
+theorem light_device (c : Captured) (D : DeviceState) (hs : SameShape D c) :
+    applyTrace (events c).reverse D c.name = some (devOf c) := by
+  cases c with
+  | plain n col p =>
+    obtain ⟨c0, p0, hD⟩ := hs
+    simp [events, applyTrace, applyEvent, upd, hD, Dev.setColor, Dev.setPower, devOf, Captured.name]
+  | multizone n zones =>
+    obtain ⟨cur, hD, hl⟩ := hs
+    exact zones_device_all n zones D cur hD hl
+  | matrix n h w cells =>
+    obtain ⟨cur, hD⟩ := hs
+    simp [events, applyTrace, applyEvent, upd, hD, Dev.setTile, devOf, Captured.name]
+
+theorem SameShape.congr {D D' : DeviceState} {c : Captured} (h : D' c.name = D c.name)
+    (hs : SameShape D c) : SameShape D' c := by
+  cases c <;> simp only [SameShape, Captured.name] at * <;> rw [h] <;> exact hs
+
+theorem lights_device : ∀ (ord : List Captured) (D : DeviceState), (ord.map (·.name)).Nodup →
+    (∀ c ∈ ord, SameShape D c) →
+    ∀ c ∈ ord, applyTrace (ord.flatMap events).reverse D c.name = some (devOf c) := by
+  intro ord
+  induction ord with
+  | nil => intro D _ _ c hc; cases hc
+  | cons x rest ih =>
+    intro D hnd hs c hc
+    simp only [List.map_cons, List.nodup_cons, List.mem_map, not_exists, not_and] at hnd
+    simp only [List.flatMap_cons, List.reverse_append]
+    rw [applyTrace_append]
+    have hframe : ∀ y ∈ rest, applyTrace (events x).reverse D y.name = D y.name := by
+      intro y hy
+      apply applyTrace_frame x.name y.name
+      · intro e; exact hnd.1 y hy (e ▸ rfl)
+      · intro e he
+        exact events_target x e (by simpa using he)
+    simp only [List.mem_cons] at hc
+    rcases hc with rfl | hc
+    · rw [applyTrace_frame' c.name]
+      · exact light_device c D (hs c (by simp))
+      · intro e he
+        simp only [List.mem_reverse, List.mem_flatMap] at he
+        obtain ⟨y, hy, hey⟩ := he
+        exact ⟨y.name, events_target y e hey, fun e' => hnd.1 y hy e'⟩
+    · exact ih _ hnd.2 (fun y hy => SameShape.congr (hframe y hy) (hs y (by simp [hy]))) c hc
+
+theorem stmtBound_le_max (ord : List Captured) :
+    ∀ c ∈ ord, stmtBound c ≤ (ord.map stmtBound).foldr max 3 := by
+  induction ord with
+  | nil => intro c hc; cases hc
+  | cons x rest ih =>
+    intro c hc
+    simp only [List.map_cons, List.foldr_cons]
+    simp only [List.mem_cons] at hc
+    rcases hc with rfl | hc
+    · exact Nat.le_max_left _ _
+    · exact Nat.le_trans (ih c hc) (Nat.le_max_right _ _)
+
+/-- fuel that suffices to replay the capture of `ls`: one unit per top-level statement, plus
+what the most deeply nested statement (the largest matrix block) needs -/
+def fuelBound (ls : List Captured) : Nat :=
+  ((ordered ls).map lightAst).flatten.length + ((ordered ls).map stmtBound).foldr max 3 + 2
+
+/-- **C18_snapshot_roundtrip.**  For every population of captured lights with pairwise distinct
+names — any mix of plain, multizone and matrix lights, any zone counts and matrix sizes, every
+raw component anywhere in 0…65535, power on or off — the script `Snapshot.scriptAst ls`, run
+from the VM's initial state against the same lights, ends normally, sends exactly the messages
+`events` lists, light after light in name order, and leaves every device — whatever state it
+was in before — in exactly the captured state. -/
+theorem C18_snapshot_roundtrip (ls : List Captured) (lights : List Light) (D : DeviceState)
+    (hnd : (ls.map (·.name)).Nodup) (hv : ∀ c ∈ ls, Valid c)
+    (hpop : ∀ c ∈ ls, HasKind (Vm.init lights) c.name (kindOf c))
+    (hD : ∀ c ∈ ls, SameShape D c) (fuel : Nat) (hf : fuelBound ls ≤ fuel) :
+    (Sem.run fuel (scriptAst ls) lights).1 = .normal ∧
+    (Sem.run fuel (scriptAst ls) lights).2.vm.trace = ((ordered ls).flatMap events).reverse ∧
+    ∀ c ∈ ls, applyTrace (Sem.run fuel (scriptAst ls) lights).2.vm.trace D c.name =
+      some (devOf c) := by
+  let K := ((ordered ls).map stmtBound).foldr max 3
+  let s0 : S := { vm := Vm.init lights, routines := (collect (scriptAst ls)).reverse }
+  obtain ⟨hr1, hl1, ht1⟩ := init_raw lights
+  let s1 : S := { s0 with vm := (Vm.init lights).switchMode .raw }
+  have hunits : RunsTo K [Stmt.units .raw] s0 s1 := by
+    apply RunsTo.single
+    intro f hf
+    obtain ⟨g, rfl⟩ : ∃ g, f = g + 1 := ⟨f - 1, by
+      have : 3 ≤ K := by
+        show 3 ≤ ((ordered ls).map stmtBound).foldr max 3
+        generalize (ordered ls).map stmtBound = xs
+        induction xs with
+        | nil => exact Nat.le_refl _
+        | cons a t ih => exact Nat.le_trans ih (Nat.le_max_right _ _)
+      omega⟩
+    simp only [execStmt]
+    exact device_running s0 _ hr1.run
+  have hd01 : SameDir (Vm.init lights) s1.vm := sameDir_of_lights hl1
+  obtain ⟨s2, hx2, ha2⟩ := lights_run K (ordered ls) s1 (stmtBound_le_max _) hr1
+    (fun c hc => (hpop c (mem_ordered hc)).of_sameDir hd01) (fun c hc => hv c (mem_ordered hc))
+  have hrun : Sem.run fuel (scriptAst ls) lights = (.normal, s2) := by
+    have := (RunsTo.append hunits hx2).block fuel (by
+      simp only [fuelBound] at hf
+      simp only [List.length_append, List.length_cons, List.length_nil]
+      omega)
+    exact this
+  have htrace : s2.vm.trace = ((ordered ls).flatMap events).reverse := by
+    rw [ha2.trace]
+    show _ ++ ((Vm.init lights).switchMode .raw).trace = _
+    rw [ht1, List.append_nil]
+  rw [hrun]
+  refine ⟨rfl, htrace, ?_⟩
+  intro c hc
+  simp only [htrace]
+  exact lights_device (ordered ls) D (ordered_nodup hnd) (fun x hx => hD x (mem_ordered hx)) c
+    (ordered_mem hnd hc)
+
+
+/-! ## 4. the AST is the text
+
+`pretty` writes the statement forms the capture uses the way `ScriptSnapshot` writes them; the
+script text of a capture is the pretty-printed AST (plus the comment line for an empty
+population, which is not a statement). -/
+
+def regWord : Reg → String
+  | .hue => "hue" | .saturation => "saturation" | .brightness => "brightness"
+  | .kelvin => "kelvin" | _ => "?"
+
+mutual
+  def pretty : Stmt → String
+    | .units .raw => "units raw\n"
+    | .setReg r (.lit (.int v)) => regWord r ++ " " ++ toString v ++ " "
+    | .action .on (.cons (.light (.str n)) .nil) => "on " ++ quoted n ++ "\n"
+    | .action .off (.cons (.light (.str n)) .nil) => "off " ++ quoted n ++ "\n"
+    | .action .set (.cons (.light (.str n)) .nil) => "set " ++ quoted n ++ "\n"
+    | .action .set (.cons (.zone (.str n) ⟨.lit (.int i), none⟩) .nil) =>
+      "set " ++ quoted n ++ " zone " ++ toString i ++ "\n"
+    | .action .set (.cons (.matrixBlock (.str n) body) .nil) =>
+      "set " ++ quoted n ++ " begin\n" ++ prettyBlock body ++ "end\n"
+    | .stage (some ⟨.lit (.int r), none⟩) (some ⟨.lit (.int c), none⟩) false =>
+      "stage row " ++ toString r ++ " column " ++ toString c ++ "\n"
+    | _ => ""
+  def prettyBlock : Block → String
+    | .nil => ""
+    | .cons s rest => pretty s ++ prettyBlock rest
+end
+
+theorem prettyBlock_append (xs ys : List Stmt) :
+    prettyBlock (Block.ofList (xs ++ ys)) =
+      prettyBlock (Block.ofList xs) ++ prettyBlock (Block.ofList ys) := by
+  induction xs with
+  | nil => simp [Block.ofList, prettyBlock, String.empty_append]
+  | cons x rest ih => simp [Block.ofList, prettyBlock, ih, String.append_assoc]
+
+theorem prettyBlock_flatten {α : Type} (f : α → List Stmt) (L : List α) :
+    prettyBlock (Block.ofList (L.map f).flatten) =
+      String.join (L.map fun x => prettyBlock (Block.ofList (f x))) := by
+  induction L with
+  | nil => simp [Block.ofList, prettyBlock]
+  | cons x rest ih =>
+    simp only [List.map_cons, List.flatten_cons, prettyBlock_append, ih, String.join_cons]
+
+theorem pretty_settings (c : List Int) :
+    prettyBlock (Block.ofList (settingsAst c)) = settingsText c := by
+  have key : ∀ (rs : List Reg) (c : List Int),
+      prettyBlock (Block.ofList ((rs.zip c).map fun (rv : Reg × Int) => Stmt.setReg rv.1 (Snapshot.lit rv.2))) =
+        String.join (((rs.map regWord).zip c).map fun (wv : String × Int) =>
+          wv.1 ++ " " ++ toString wv.2 ++ " ") := by
+    intro rs
+    induction rs with
+    | nil => intro c; simp [Block.ofList, prettyBlock]
+    | cons r rest ih =>
+      intro c
+      cases c with
+      | nil => simp [Block.ofList, prettyBlock]
+      | cons v c =>
+        simp only [List.zip_cons_cons, List.map_cons, Block.ofList, prettyBlock, String.join_cons]
+        rw [ih c]
+        simp only [Snapshot.lit, pretty]
+  exact key [Reg.hue, .saturation, .brightness, .kelvin] c
+
+theorem pretty_zone_item (n : String) (z : List Int) (i : Nat) :
+    prettyBlock (Block.ofList (settingsAst z ++
+      [Stmt.action .set (.cons (.zone (.str n) ⟨Snapshot.lit i, none⟩) .nil)])) =
+    settingsText z ++ "set " ++ quoted n ++ " zone " ++ toString i ++ "\n" := by
+  simp only [prettyBlock_append, pretty_settings, Block.ofList, prettyBlock, pretty, Snapshot.lit,
+    String.append_assoc, String.append_empty]
+  rfl
+
+theorem pretty_cell_item (w : Nat) (c : List Int) (k : Nat) :
+    prettyBlock (Block.ofList (settingsAst c ++
+      [Stmt.stage (some ⟨Snapshot.lit (k / w : Nat), none⟩) (some ⟨Snapshot.lit (k % w : Nat), none⟩)
+        false])) =
+    settingsText c ++ "stage row " ++ toString (k / w) ++ " column " ++ toString (k % w) ++ "\n" := by
+  simp only [prettyBlock_append, pretty_settings, Block.ofList, prettyBlock, pretty, Snapshot.lit,
+    String.append_assoc, String.append_empty]
+  rfl
+
+theorem pretty_light (c : Captured) : prettyBlock (Block.ofList (lightAst c)) = lightText c := by
+  cases c with
+  | plain n col p =>
+    simp only [lightAst, lightText, prettyBlock_append, pretty_settings]
+    cases hp : (p != 0) <;>
+      simp only [Block.ofList, prettyBlock, pretty, String.append_assoc, String.append_empty,
+        Bool.false_eq_true, if_false, if_true]
+  | multizone n zones =>
+    simp only [lightAst, lightText, prettyBlock_flatten, pretty_zone_item]
+  | matrix n h w cells =>
+    simp only [lightAst, lightText, Block.ofList, prettyBlock, pretty, prettyBlock_flatten,
+      String.append_empty, pretty_cell_item]
+
+/-- **C18_ast_is_text.**  The text the capture writes is the AST the theorems above run,
+pretty-printed statement by statement — byte for byte; an empty population adds one comment
+line, which is not a statement. -/
+theorem C18_ast_is_text (ls : List Captured) :
+    prettyBlock (scriptAst ls) ++ (if ls.isEmpty then "# No lights found.\n" else "") =
+      scriptText ls := by
+  have : scriptAst ls = Block.ofList ([Stmt.units .raw] ++ ((ordered ls).map lightAst).flatten) := rfl
+  rw [this, prettyBlock_append, prettyBlock_flatten]
+  simp only [scriptText, Block.ofList, prettyBlock, pretty, String.append_empty, pretty_light]
+
+
+/-! ## the hypotheses are satisfiable
+
+A population with one light of each kind, captured in one state and replayed against devices
+in another. -/
+namespace Example
+
+def captured : List Captured :=
+  [.plain "lamp" [21845, 65535, 32768, 3500] 65535,
+   .multizone "strip" [[0, 0, 0, 2700], [100, 200, 300, 2700], [65535, 65535, 65535, 9000]],
+   .matrix "tile" 2 2 [[1, 2, 3, 4], [5, 6, 7, 8], [9, 10, 11, 12], [13, 14, 15, 16]]]
+
+def lights : List Light :=
+  [{ name := "lamp", group := "g", location := "l", kind := .plain },
+   { name := "strip", group := "g", location := "l", kind := .multizone 3 },
+   { name := "tile", group := "g", location := "l", kind := .matrix 2 2 }]
+
+def before : DeviceState
+  | "lamp" => some (.plain [1, 1, 1, 1] 0)
+  | "strip" => some (.multizone [[7, 7, 7, 7], [8, 8, 8, 8], [9, 9, 9, 9]])
+  | "tile" => some (.matrix [[0, 0, 0, 0], [0, 0, 0, 0], [0, 0, 0, 0], [0, 0, 0, 0]])
+  | _ => none
+
+theorem inRange_of {c : List Int} (h : c.length = 4 ∧ c.all (fun x => 0 ≤ x && x ≤ 65535) = true) :
+    InRange c := by
+  refine ⟨h.1, ?_⟩
+  intro x hx
+  have := List.all_eq_true.mp h.2 x hx
+  simpa using this
+
+theorem captured_valid : ∀ c ∈ captured, Valid c := by
+  intro c hc
+  simp only [captured, List.mem_cons, List.not_mem_nil, or_false] at hc
+  rcases hc with rfl | rfl | rfl
+  · exact ⟨inRange_of (by decide), .inr rfl⟩
+  · refine ⟨by decide, ?_⟩
+    intro z hz
+    simp only [List.mem_cons, List.not_mem_nil, or_false] at hz
+    rcases hz with rfl | rfl | rfl <;> exact inRange_of (by decide)
+  · refine ⟨by decide, ?_⟩
+    intro z hz
+    simp only [List.mem_cons, List.not_mem_nil, or_false] at hz
+    rcases hz with rfl | rfl | rfl | rfl <;> exact inRange_of (by decide)
+
+theorem captured_known : ∀ c ∈ captured, HasKind (Vm.init lights) c.name (kindOf c) := by
+  intro c hc
+  simp only [captured, List.mem_cons, List.not_mem_nil, or_false] at hc
+  rcases hc with rfl | rfl | rfl
+  · exact ⟨{ name := "lamp", group := "g", location := "l", kind := .plain }, rfl, rfl⟩
+  · exact ⟨{ name := "strip", group := "g", location := "l", kind := .multizone 3 }, rfl, rfl⟩
+  · exact ⟨{ name := "tile", group := "g", location := "l", kind := .matrix 2 2 }, rfl, rfl⟩
+
+theorem before_shape : ∀ c ∈ captured, SameShape before c := by
+  intro c hc
+  simp only [captured, List.mem_cons, List.not_mem_nil, or_false] at hc
+  rcases hc with rfl | rfl | rfl
+  · exact ⟨_, _, rfl⟩
+  · exact ⟨_, rfl, rfl⟩
+  · exact ⟨_, rfl⟩
+
+/-- the replay ends normally and every device ends in the captured state -/
+example : (Sem.run 200 (scriptAst captured) lights).1 = .normal ∧
+    ∀ c ∈ captured, applyTrace (Sem.run 200 (scriptAst captured) lights).2.vm.trace before c.name =
+      some (devOf c) := by
+  have h := C18_snapshot_roundtrip captured lights before (by decide) captured_valid captured_known
+    before_shape 200 (by decide)
+  exact ⟨h.1, h.2.2⟩
+
+/-- the text, for a small population (lights in name order, names with spaces) -/
+example : scriptText [.plain "lamp" [1, 2, 3, 4] 65535, .multizone "a strip" [[5, 6, 7, 8]]] =
+    "units raw\nhue 5 saturation 6 brightness 7 kelvin 8 set \"a strip\" zone 0\nhue 1 saturation 2 brightness 3 kelvin 4 on \"lamp\"\nset \"lamp\"\n" := by
+  decide +kernel
+
+example : prettyBlock (scriptAst captured) = scriptText captured := by
+  have := C18_ast_is_text captured
+  simpa [captured, String.append_empty] using this
+
+end Example
+
+end C18
 end Bardolph
